@@ -23,7 +23,22 @@ RULE = ("random bait tables on 1..3 chromosomes drawn from canonical and non-can
         "[--annotate F] [--short-names] -o|--output` (run twice: with and without the labelling options) and "
         "`cnvkit.py antitarget [-g|--access F] [-a|--avg-size N] [-m|--min-size N] -o|--output` with integer sizes, "
         "--avg-size / --min-size / --access left out when the case has the parser's default (200/0.75, 150000, "
-        "None, None); the output BED file is read back and must equal the table handed to the writer. "
+        "None, None); the output BED file is read back and must equal the table handed to the writer; `target` also "
+        "without -o (the BED text printed to standard output); the input files as BED4, BED6 (score, strand) or "
+        "BED3 (labels become '-'), a third of them with their lines in another order (the reader sorts). "
+        "Three private streams seeded by the case reshape part of the random cases: "
+        "(dflt-*, 10 %) the function defaults: coordinates scaled until the default average (150000 / 266.67) cuts "
+        "regions into several bins and the default minimum (9374) keeps some stretches and drops others; "
+        "(edge-*, 20 % of the antitarget cases) sizes on a boundary of this very input: minimum = length of one "
+        "off-target stretch (or +-1), average = 2 x length / 1, 3, 5, 7, 9 (length / average = 0.5, 1.5, ... : "
+        "round-half-even ties, bins of exactly 1.5 x average), non-integer float averages; "
+        "(field rep, 55 % of the API cases, 80-90 % of those with an annotation file or at the defaults) the "
+        "REPRESENTATION handed to do_target / do_antitarget: bait / target / access tables that are filtered "
+        "subsets of larger tables (pandas index labels != positions), extra columns (strand, depth), another "
+        "column order, targets without a gene column, float64 / int32 coordinates, numpy or float scalars for the "
+        "sizes, arguments by position / by keyword / left out when they equal the default (annotate=None, "
+        "do_short_names=False, do_split=False, avg_size=200/0.75; access=None, avg_bin_size=150000, "
+        "min_bin_size=None). "
         "non-trivial = the model output has at least one bin and (antitarget) some target lies on an accessible "
         "contig or (target) at least two baits interact or a bait is split; distinct = distinct case by hash")
 EXHAUSTIVE = {"quick": False, "thorough": False}
@@ -254,9 +269,166 @@ def corpus():
     ]
 
 
+TARGET_AVG_DEFAULT = 200 / 0.75  # the default of do_target's avg_size and of `target --avg-size`
+ANTI_AVG_DEFAULT = 150000  # the default of do_antitarget's avg_bin_size and of `antitarget --avg-size`
+MARGIN = 500  # only used to pick boundary sizes below; the check itself takes the number from the property
+TELOMERE = 150000
+
+
+def _off_target_stretches(tg, acc):
+    """lengths of the stretches of accessible sequence (shrunk by the margin) that stay clear of every target
+    by the margin -- a plain interval computation used ONLY to aim sizes at their boundaries (a wrong length
+    merely gives one more random size); contig selection is ignored"""
+    if not acc:
+        last = {}
+        for c, _s, e, _g in tg:
+            last[c] = e
+        acc = [[c, TELOMERE, e, ""] for c, e in last.items()]
+    spans = []
+    for c, s, e, *_ in acc:
+        s, e = max(0, s + MARGIN), e - MARGIN
+        pos = s
+        for _c, ts, te, _g in sorted([r for r in tg if r[0] == c], key=lambda r: (r[1], r[2])):
+            ts, te = max(0, ts - MARGIN), te + MARGIN
+            if ts > pos and min(ts, e) > pos:
+                spans.append(min(ts, e) - pos)
+            pos = max(pos, te)
+        if e > pos:
+            spans.append(e - pos)
+    return [x for x in spans if x > 0]
+
+
+DEFAULT_SHARE = 0.1
+
+
+def _default_variant(case):
+    """the case at the DEFAULT sizes of the two functions (or None): coordinates scaled up until the default
+    average (150000 / 266.67) cuts some region into several bins and the default minimum (9374) keeps some and
+    drops others; the sizes are then left out of the call wherever the call style allows it (_rep_variant,
+    _cli_variant).  Private random stream seeded by the case."""
+    import json
+    import random
+    sub = random.Random("c12dflt:" + json.dumps(case, sort_keys=True))
+    if sub.random() >= DEFAULT_SHARE:
+        return None
+    i = dict(case["in"])
+    if case["op"] == "antitarget":
+        spans = _off_target_stretches(i["tg"], i["acc"])
+        if not spans or max(spans) < 300:
+            return None
+        # the longest stretch becomes 1.2 .. 6 times the default average (at most ~40 bins per stretch)
+        f = max(1, -(-int(ANTI_AVG_DEFAULT * sub.uniform(1.2, 6)) // max(spans)))
+        if i["acc"] is None:  # guessed extents start at 150000 whatever the scale: shift instead
+            f = 1
+            off = int(ANTI_AVG_DEFAULT * sub.uniform(1.2, 4))
+            i["tg"] = [[c, s + off, e + off, g] for c, s, e, g in i["tg"]]
+        else:
+            i["tg"] = [[c, s * f, e * f, g] for c, s, e, g in i["tg"]]
+            i["acc"] = [[c, s * f, e * f, g] for c, s, e, g in i["acc"]]
+        i["avg"], i["avg_f"] = frac(ANTI_AVG_DEFAULT), ANTI_AVG_DEFAULT
+        i["min"] = sub.choice([None, None, None, 0, i["min"]])
+    else:
+        spans = [r[2] - r[1] for r in i["baits"] if r[2] > r[1]]
+        if not spans:
+            return None
+        total = sum(spans)
+        f = max(1, min(int(400 * TARGET_AVG_DEFAULT * 0.9) // total, -(-sub.randint(400, 4000) // max(spans))))
+        i["baits"] = [[c, s * f, e * f, g] for c, s, e, g in i["baits"]]
+        if i["annot"]:
+            i["annot"] = [[c, s * f, e * f, g] for c, s, e, g in i["annot"]]
+        i["avg"], i["avg_f"] = frac(TARGET_AVG_DEFAULT), TARGET_AVG_DEFAULT
+        i["split"] = True
+    return {"op": case["op"], "tag": "dflt-" + case["tag"], "in": i}
+
+
+BOUNDARY_SHARE = 0.2
+
+
+def _boundary_variant(case):
+    """antitarget case with its sizes moved onto a boundary of THIS input (or None): the minimum equal to the
+    length of one of the off-target stretches (or one base more / less: the stretch is binned / dropped), the
+    average such that length / average is 1.5, 2.5, 3.5, 0.5 (round-half-even ties), or a non-integer average.
+    Private random stream seeded by the case: the main stream is what it would be without this step."""
+    import json
+    import random
+    if case["op"] != "antitarget":
+        return None
+    sub = random.Random("c12edge:" + json.dumps(case, sort_keys=True))
+    if sub.random() >= BOUNDARY_SHARE:
+        return None
+    i = dict(case["in"])
+    spans = _off_target_stretches(i["tg"], i["acc"])
+    if not spans:
+        return None
+    span = sub.choice(spans)
+    avg, mn = i["avg_f"], i["min"]
+    k = sub.random()
+    if k < 0.55:
+        mn = max(1, span + sub.choice([0, 0, 0, 1, -1]))
+        if sub.random() < 0.7 and 4 * mn > 3 * avg:  # keep the minimum at or below 3/4 of the average (finding K)
+            avg = sub.choice([-(-4 * mn // 3), sub.randint(-(-4 * mn // 3), 3 * mn + 4), 2 * mn])
+        if avg * 400 < max(spans):  # not thousands of bins
+            avg = max(avg, max(spans) // 200)
+    elif k < 0.85:
+        cands = [Fraction(2 * span, d) for d in (1, 3, 5, 7, 9)]
+        cands = [int(a) for a in cands if a.denominator == 1 and a >= 4 and a * 400 >= max(spans)]
+        if not cands:
+            return None
+        avg = sub.choice(cands)
+        mn = sub.choice([None, None, 0, 1, max(1, avg // 16), max(1, (3 * avg) // 4)])
+    else:
+        avg = avg + sub.choice([0.5, 0.25, 0.75, 1 / 3])  # a float average (the API takes any number)
+    i["avg"], i["avg_f"], i["min"] = frac(avg), avg, mn
+    return {"op": case["op"], "tag": "edge-" + case["tag"], "in": i}
+
+
+REP_SHARE = 0.55
+
+
+def _rep_variant(case):
+    """the same case handed to do_target / do_antitarget in another REPRESENTATION (field `rep`, not part of
+    the model's input): tables that are filtered subsets of larger ones (pandas index labels != positions),
+    extra columns / another column order / no gene column, float or int32 coordinates, numpy scalars for the
+    sizes, arguments by position / by keyword / left out when they equal the default.  Private stream."""
+    import json
+    import random
+    if case["in"].get("cli"):
+        return None
+    sub = random.Random("c12rep:" + json.dumps(case, sort_keys=True))
+    dflt = case["tag"].startswith("dflt-")
+    if sub.random() >= (0.9 if dflt else 0.8 if case["in"].get("annot") else REP_SHARE):
+        return None
+    i = dict(case["in"])
+    rep = {}
+    for who in (("tg", "acc") if case["op"] == "antitarget" else ("baits",)):
+        if not i.get(who):
+            continue
+        # labels are assigned by row label: a filtered bait table with an annotation file is the cell that matters
+        if sub.random() < (0.85 if who == "baits" and i.get("annot") else 0.5):
+            rep["sub_" + who] = sub.randint(1, 10 ** 6)
+        k = sub.random()
+        if k < 0.2:
+            rep["cols_" + who] = "extra"  # strand + a numeric column after the usual four
+        elif k < 0.35:
+            rep["cols_" + who] = "order"  # the same, columns in another order
+        elif k < 0.5 and who == "tg":
+            rep["cols_" + who] = "nogene"  # a bed3 target table
+        k = sub.random()
+        if k < 0.15:
+            rep["dtype_" + who] = "float"
+        elif k < 0.3:
+            rep["dtype_" + who] = "int32"
+    k = sub.random()
+    if k < 0.25:
+        rep["num"] = "np"  # numpy scalars, as computed by autobin / read from a table
+    elif k < 0.4:
+        rep["num"] = "float"
+    rep["call"] = "implicit" if dflt and sub.random() < 0.8 else sub.choice(["pos", "kw", "implicit", "implicit"])
+    i["rep"] = rep
+    return {"op": case["op"], "tag": case["tag"], "in": i}
+
+
 CLI_SHARE = 0.16
-TARGET_AVG_DEFAULT = 200 / 0.75  # the parser's default of `target --avg-size`
-ANTI_AVG_DEFAULT = 150000  # the parser's default of `antitarget --avg-size`
 
 
 def _cli_variant(case):
@@ -291,6 +463,11 @@ def _cli_variant(case):
         # NOTE `antitarget` without -o raises AttributeError (args.interval does not exist):
         # /verif/proposed_fixes/C12-cli-antitarget-default-output.md -- every generated command line carries -o
         opts["out"] = "-o" if sub.random() < 0.5 else "--output"
+        # the files: lines in another order (the reader sorts); targets as BED3 / BED4 / BED6
+        opts["shuffle"] = sub.randint(1, 10 ** 6) if sub.random() < 0.3 else None
+        opts["ncol"] = sub.choice([4, 4, 4, 6, 3])
+        if opts["ncol"] == 3:
+            i["tg"] = [[r[0], r[1], r[2], "-"] for r in i["tg"]]
     else:
         avg = i["avg_f"]
         k = sub.random()
@@ -310,7 +487,14 @@ def _cli_variant(case):
             i["avg"], i["avg_f"], opts["avg"] = frac(TARGET_AVG_DEFAULT), TARGET_AVG_DEFAULT, None
         # a BED file cannot carry a trailing blank / an empty label
         i["baits"] = [[r[0], r[1], r[2], r[3].strip() or "-"] for r in i["baits"]]
-        opts["out"] = "-o" if sub.random() < 0.5 else "--output"
+        # None: no -o / --output, the BED text goes to standard output
+        opts["out"] = sub.choice(["-o", "--output", None])
+        # the bait file as BED6 (score, strand) and / or with its lines in another order (the reader sorts)
+        # or as BED3: the reader then labels every bait "-"
+        opts["ncol"] = sub.choice([4, 4, 4, 4, 6, 6, 6, 3, 3])
+        if opts["ncol"] == 3:
+            i["baits"] = [[r[0], r[1], r[2], "-"] for r in i["baits"]]
+        opts["shuffle"] = sub.randint(1, 10 ** 6) if sub.random() < 0.3 else None
     i["cli"] = True
     i["cli_opts"] = opts
     return {"op": case["op"], "tag": "cli-" + case["tag"], "in": i}
@@ -322,7 +506,9 @@ def gen_cases(rng, tier):
     for i in range(n):
         c = (_anti_case(rng, tier if tier == "search" else "random") if i % 5 < 3
              else _target_case(rng, tier if tier == "search" else "random"))
-        cases.append(_cli_variant(c) or c)
+        c = _default_variant(c) or _boundary_variant(c) or c
+        c = _cli_variant(c) or c
+        cases.append(_rep_variant(c) or c)
     return cases
 
 
@@ -330,10 +516,24 @@ def gen_cases(rng, tier):
 # real code
 
 
-def _write_bed(path, rows, ncol=4):
+def _write_bed(path, rows, ncol=4, shuffle=None):
+    """`shuffle` (a seed): the lines in another order -- rows with equal coordinates keep their relative order,
+    so that the sorted table the reader builds is `rows` again"""
+    import random
+    lines = ["\t".join(str(x) for x in r[:min(ncol, 4)]) + ("\t%d\t%s" % (k % 7, "+-"[k % 2]) if ncol == 6 else "") + "\n"
+             for k, r in enumerate(rows)]
+    if shuffle:
+        order = list(range(len(rows)))
+        random.Random(shuffle).shuffle(order)
+        slots = {}  # restore the relative order inside each group of equal coordinates
+        for pos, k in enumerate(order):
+            slots.setdefault(tuple(rows[k][:3]), []).append(pos)
+        for key, poss in slots.items():
+            for pos, k in zip(poss, sorted(order[q] for q in poss)):
+                order[pos] = k
+        lines = [lines[k] for k in order]
     with open(path, "w") as f:
-        for r in rows:
-            f.write("\t".join(str(x) for x in r[:ncol]) + "\n")
+        f.writelines(lines)
 
 
 def _read_bed_plain(path):
@@ -366,16 +566,28 @@ def _cnvkit(argv, fout, cap):
         def write(self, garr, outfname=None, fmt="tab", *a, **k):
             captured.append((garr, outfname, fmt))
             return tabio.write(garr, outfname, fmt, *a, **k)
+    import contextlib
+    import io
     saved = commands.tabio
     commands.tabio = _Tab()
     logging.disable(logging.CRITICAL)
+    stdout = io.StringIO()
     try:
-        args = commands.parse_args(argv)
-        args.func(args)
+        with contextlib.redirect_stdout(stdout):
+            args = commands.parse_args(argv)
+            args.func(args)
     finally:
         logging.disable(logging.NOTSET)
         commands.tabio = saved
-    if len(captured) != 1 or captured[0][1] != fout or captured[0][2] != "bed4" or not os.path.exists(fout):
+    if fout is None:  # no -o: the BED text is printed
+        if len(captured) != 1 or captured[0][1] is not None or captured[0][2] != "bed4":
+            raise AssertionError(f"cnvkit.py {argv[0]} without -o did not print exactly one bed4 table")
+        fout = argv[1] + ".stdout"
+        with open(fout, "w") as f:
+            f.write(stdout.getvalue())
+    elif stdout.getvalue():
+        raise AssertionError(f"cnvkit.py {argv[0]} -o FILE printed to standard output as well")
+    if len(captured) != 1 or captured[0][1] not in (fout, None) or captured[0][2] != "bed4" or not os.path.exists(fout):
         raise AssertionError(f"cnvkit.py {argv[0]} did not write exactly one bed4 table to the requested output")
     if len(captured[0][0]) > cap:
         raise AssertionError(f"cnvkit.py {argv[0]} wrote {len(captured[0][0])} bins, more than twice what the "
@@ -404,12 +616,12 @@ def _anti_cli(i):
     d = tempfile.mkdtemp(dir="/var/tmp", prefix="c12cli")
     try:
         ft, fa, fo = (os.path.join(d, n) for n in ("targets.bed", "access.bed", "out.antitarget.bed"))
-        _write_bed(ft, i["tg"])
+        _write_bed(ft, i["tg"], o.get("ncol", 4), shuffle=o.get("shuffle"))
         _check_reread(ft, i["tg"], "target")
         argv = ["antitarget", ft]
         if i["acc"] is not None:
             acc = i["acc"] if i.get("acc_gene", True) else [r[:3] for r in i["acc"]]
-            _write_bed(fa, acc, 4 if i.get("acc_gene", True) else 3)
+            _write_bed(fa, acc, 4 if i.get("acc_gene", True) else 3, shuffle=o.get("shuffle"))
             _check_reread(fa, acc, "access")
             assert o["access"]
             _opt(argv, o["access"], fa)
@@ -433,7 +645,7 @@ def _target_cli(i):
     d = tempfile.mkdtemp(dir="/var/tmp", prefix="c12cli")
     try:
         fb, fn, fo, fp = (os.path.join(d, n) for n in ("baits.bed", "annot.bed", "out.target.bed", "plain.target.bed"))
-        _write_bed(fb, i["baits"])
+        _write_bed(fb, i["baits"], o.get("ncol", 4), shuffle=o.get("shuffle"))
         _check_reread(fb, i["baits"], "bait")
         assert o["avg"] is not None or i["avg_f"] == TARGET_AVG_DEFAULT
         common = ["--split"] if i["split"] else []
@@ -445,12 +657,50 @@ def _target_cli(i):
         if i["short"]:
             argv += ["--short-names"]
         cap = 50 + 2 * len(i["baits"]) + 2 * int(sum(r[2] - r[1] for r in i["baits"]) / i["avg_f"])
-        out = _cnvkit(argv + common + [o["out"], fo], fo, cap)
-        # the same bins before relabelling: neither --annotate nor --short-names on the command line
-        plain = _cnvkit(["target", fb] + common + [o["out"], fp], fp, cap)
+        if o["out"] is None:
+            out = _cnvkit(argv + common, None, cap)
+            plain = _cnvkit(["target", fb] + common, None, cap)
+        else:
+            out = _cnvkit(argv + common + [o["out"], fo], fo, cap)
+            # the same bins before relabelling: neither --annotate nor --short-names on the command line
+            plain = _cnvkit(["target", fb] + common + [o["out"], fp], fp, cap)
         return {"rows": out, "plain": plain}
     finally:
         shutil.rmtree(d, ignore_errors=True)
+
+
+def _table(rows, rep, who):
+    """the GenomicArray of `rows` in the representation `rep` asks for (see _rep_variant)"""
+    import numpy as np
+    arr = T.ga(rows, sub=rep.get("sub_" + who)) if rep.get("sub_" + who) else T.ga(rows)
+    if not len(arr):
+        return arr
+    cols = rep.get("cols_" + who)
+    if cols in ("extra", "order"):
+        d = arr.data.assign(strand=["+-"[k % 2] for k in range(len(arr))],
+                            depth=[0.5 * k for k in range(len(arr))])
+        if cols == "order":
+            d = d[["chromosome", "strand", "start", "end", "depth", "gene"] if len(rows) % 2
+                  else ["gene", "depth", "end", "start", "chromosome", "strand"]]
+        arr.data = d
+    elif cols == "nogene":
+        arr = arr.keep_columns(["chromosome", "start", "end"])
+    dt = rep.get("dtype_" + who)
+    if dt:
+        arr.data = arr.data.astype({"start": float if dt == "float" else np.int32,
+                                    "end": float if dt == "float" else np.int32})
+    return arr
+
+
+def _num(x, rep):
+    """a size as the number type `rep` asks for (the value is unchanged)"""
+    import numpy as np
+    kind = rep.get("num")
+    if x is None or not kind:
+        return x
+    if kind == "float":
+        return float(x)
+    return np.int64(x) if isinstance(x, int) else np.float64(x)
 
 
 def run_impl(case):
@@ -458,16 +708,27 @@ def run_impl(case):
     op, i = case["op"], case["in"]
     if i.get("cli"):
         return _anti_cli(i) if op == "antitarget" else _target_cli(i)
+    rep = i.get("rep") or {}
     if op == "antitarget":
-        tg = T.ga(i["tg"])
+        tg = _table(i["tg"], rep, "tg")
         acc = None
         if i["acc"] is not None:
-            acc = T.ga(i["acc"])
+            acc = _table(i["acc"], rep, "acc")
             if not i.get("acc_gene", True) and len(acc):
-                acc = acc.keep_columns(["chromosome", "start", "end"])
-        return T.rows_of(antitarget.do_antitarget(tg, acc, i["avg_f"], i["min"]))
+                acc = acc.keep_columns([c for c in acc.data.columns if c != "gene"])
+        avg, mn = _num(i["avg_f"], rep), _num(i["min"], rep)
+        call = rep.get("call", "pos")
+        if call == "pos":
+            out = antitarget.do_antitarget(tg, acc, avg, mn)
+        else:
+            kw = {"min_bin_size": mn, "avg_bin_size": avg, "access": acc}
+            if call == "implicit":  # whatever equals the default is left out
+                kw = {k: v for k, v in kw.items()
+                      if not (v is None or (k == "avg_bin_size" and i["avg_f"] == ANTI_AVG_DEFAULT))}
+            out = antitarget.do_antitarget(tg, **kw)
+        return T.rows_of(out)
     if op == "target":
-        baits = T.ga(i["baits"])
+        baits = _table(i["baits"], rep, "baits")
         d = None
         try:
             path = None
@@ -477,8 +738,18 @@ def run_impl(case):
                 with open(path, "w") as f:
                     for r in i["annot"]:
                         f.write(f"{r[0]}\t{r[1]}\t{r[2]}\t{r[3]}\n")
-            plain = target.do_target(baits, None, False, i["split"], i["avg_f"])
-            out = target.do_target(baits, path, i["short"], i["split"], i["avg_f"])
+            avg = _num(i["avg_f"], rep)
+            call = rep.get("call", "pos")
+            if call == "pos":
+                plain = target.do_target(baits, None, False, i["split"], avg)
+                out = target.do_target(baits, path, i["short"], i["split"], avg)
+            else:
+                kw = {"avg_size": avg, "do_split": i["split"], "do_short_names": i["short"], "annotate": path}
+                if call == "implicit":  # whatever equals the default is left out
+                    kw = {k: v for k, v in kw.items()
+                          if not (v is None or v is False or (k == "avg_size" and i["avg_f"] == TARGET_AVG_DEFAULT))}
+                plain = target.do_target(baits, **{k: v for k, v in kw.items() if k in ("avg_size", "do_split")})
+                out = target.do_target(baits, **kw)
             return {"rows": T.rows_of(out), "plain": T.rows_of(plain)}
         finally:
             if d:
@@ -487,7 +758,7 @@ def run_impl(case):
 
 
 def to_line(case, impl):
-    inp = {k: v for k, v in case["in"].items() if k not in ("avg_f", "acc_gene", "cli", "cli_opts")}
+    inp = {k: v for k, v in case["in"].items() if k not in ("avg_f", "acc_gene", "cli", "cli_opts", "rep")}
     line = {"op": case["op"], "in": inp}
     if not (isinstance(impl, dict) and "__error__" in impl):
         line["impl"] = impl
